@@ -87,5 +87,42 @@ def ra10_parse_u128(u, key, text):
     return text
 
 
+def ra11_lines_loop(u, key, text):
+    """RA11: `for (i, line) in source.lines().enumerate() {` -> `let lexa_lines = lexa_str_lines(source);
+    for i in 0..lexa_lines.len() { let line = lexa_lines[i];`  where lexa_str_lines is the trusted wrapper
+    `source.lines().collect::<Vec<&str>>()` (prelude/lexa_std.rs).  `str::lines` is lazy but pure and the body only holds a
+    shared borrow of `source`, so collecting first and indexing is the same iteration (cf. R1/R17)."""
+    pat = re.compile(r'for \((\w+), (\w+)\) in (\w+)\.lines\(\)\.enumerate\(\)(\s*)\{')
+    m = pat.search(text)
+    if not m:
+        raise LostAnchor('%s: RA11 `for (i, line) in S.lines().enumerate()` not found' % key)
+    u.rules['RA11'] += 1
+    return text[:m.start()] + 'let lexa_lines = lexa_str_lines(%s);%sfor %s in 0..lexa_lines.len()%s{%s\tlet %s = lexa_lines[%s];' % (
+        m.group(3), m.group(4), m.group(1), m.group(4), m.group(4), m.group(2), m.group(1)) + text[m.end():]
+
+
+def ra12_chars_count(u, key, text):
+    """RA12: `E.chars().count()` -> `E.unicode_len()` (vstd's name for exactly that: number of characters of a str)"""
+    pat = re.compile(r'\b(\w+)\.chars\(\)\.count\(\)')
+    n = len(pat.findall(text))
+    if n:
+        u.rules['RA12'] += n
+        text = pat.sub(r'\1.unicode_len()', text)
+    return text
+
+
+def ra13_str_len(u, key, text):
+    """RA13: `source.len()` (byte length of a &str) -> `lexa_str_len(source)`, a trusted wrapper around the same call whose
+    spec is "length of the UTF-8 encoding; zero iff there are no characters".  vstd does specify `str::len`, but by an
+    uninterpreted `spec_len` unrelated to the character view, and a second assume_specification is rejected."""
+    pat = re.compile(r'(?<![\w.])source\.len\(\)')
+    n = len(pat.findall(text))
+    if n:
+        u.rules['RA13'] += n
+        text = pat.sub('lexa_str_len(source)', text)
+    return text
+
+
+LEX_RULES = [ra11_lines_loop, ra12_chars_count, ra13_str_len]
 LEX_LINE_RULES = [ra5_char_peek_iter, ra6_by_value_patterns, str_patterns, ra9_hoist_for_temporary, ra8_char_to_string,
                   ra10_parse_u128]
